@@ -24,6 +24,7 @@ BASES = {"code": 0x00000, "data": 0x80000}
 # (template text, kind) ; {L} = label reference slot
 PLAIN = [
     "NOP", "MV A, 0x12", "MV BA, 0x1234", "MV X, 0x12345", "MV (BP+0x10), 0x20", "MV [0x12345], (BP+0x10)",
+    "MV [(BP+0x10)+0x02], A", "MV [(BP+0x10)], A", "MV (BP+0x10), [X+0x02]", "MV (BP+0x10), [X]",
     "defb 1, 2, 3", "defw 0x1234", "defl 0x012345", "defs 3", 'defm "AB"', 'defb "AB", 3', "defs 0", "",
 ]
 REFS = ["JP {L}", "JPZ {L}", "CALL {L}", "CALLF {L}", "JPF {L}", "MV X, {L}", "MV BA, {L}", "MV A, [{L}]", "defw {L}", "defl {L}", "defb {L}, 1",
@@ -176,7 +177,7 @@ def judge(stmts: List[Tuple[str, str]], vb: VB) -> str:
 def judge_text(text: str, plain: List[str], vb: VB) -> str:
     kinds = "+".join(sorted({p.split()[0].upper() + ("-sym" if re.search(r"\b[Ll]\d+\b", p) else "") for p in plain
                              if p.strip() and (p.split()[0].upper() in (".ORG", "SECTION") or re.search(r"\b[Ll]\d+\b", p))}))[:80] or "plain"
-    wit = lambda: {"program": text}  # noqa: E731
+    wit = lambda: dict({"program": text}, **({"shard": dict(_SHARD)} if _SHARD else {}))  # noqa: E731
     asm = Assembler()
     try:
         out = asm.assemble(text)
@@ -230,7 +231,14 @@ def judge_text(text: str, plain: List[str], vb: VB) -> str:
     return "bad" if bad else "ok"
 
 
-def _shard(progs):
+_CTX: Dict[str, Any] = {}
+_SHARD: Dict[str, Any] = {}
+
+
+def _shard(args):
+    progs, sid, cx = args
+    _SHARD.clear()
+    _SHARD.update(cx, sid=sid)       # recorded in every witness: module-level caches make the whole shard a program's history
     vb = VB()
     n = ok = undefined = 0
     for stmts in progs:
@@ -268,22 +276,34 @@ def _hist(args):
     return {"n": n, "ok": n, "undefined": 0, "vb": vb}
 
 
-def run(ctx) -> None:
-    pal = palette(ctx.thorough)
+def all_programs(thorough: bool, seed: int) -> List[Tuple]:
+    pal = palette(thorough)
     progs: List[Tuple] = []
     for L in (1, 2):
         progs += list(itertools.product(pal, repeat=L))
-    small = [p for p in palette(False) if p[0] in ("NOP", "MV X, 0x12345", "defb 1, 2, 3", "defs 3", "SECTION data", "SECTION bss", "SECTION code",
-                                                    ".ORG 0x100", ".ORG 0x10100", "JP {L}", "CALLF {L}", "MV X, {L}", "defw {L}", ".ORG {L}")]
+    small = [p for p in palette(False) if p[0] in SMALL]
     progs += list(itertools.product(small, repeat=3))
-    if ctx.thorough:
+    if thorough:
         progs += list(itertools.product(palette(False), repeat=3))
         tiny = [p for p in small if p[0] in ("NOP", "defs 3", "SECTION data", "SECTION bss", ".ORG 0x10100", "JP {L}", "MV X, {L}", "defw {L}")]
         progs += list(itertools.product(tiny, repeat=4))
-    if ctx.seed:
-        k = ctx.seed % max(1, len(progs))
+    if seed:
+        k = seed % max(1, len(progs))
         progs = progs[k:] + progs[:k]
-    res = pmap(_shard, chunks(progs, nproc() * 4))
+    return progs
+
+
+SMALL = ("NOP", "MV X, 0x12345", "defb 1, 2, 3", "defs 3", "SECTION data", "SECTION bss", "SECTION code",
+         ".ORG 0x100", ".ORG 0x10100", "JP {L}", "CALLF {L}", "MV X, {L}", "defw {L}", ".ORG {L}")
+
+
+def run(ctx) -> None:
+    pal = palette(ctx.thorough)
+    small = [p for p in palette(False) if p[0] in SMALL]
+    progs = all_programs(ctx.thorough, ctx.seed)
+    shards = chunks(progs, nproc() * 4)
+    _CTX.update({"thorough": ctx.thorough, "seed": ctx.seed, "nshards": len(shards)})
+    res = pmap(_shard, [(sh, i, dict(_CTX)) for i, sh in enumerate(shards)])
     pool_st = [[("NOP", ""), ("JP {L}", "back")], [("defb 1, 2, 3", ""), ("MV X, {L}", "fwd")], [("SECTION data", ""), ("defw {L}", "back")],
                [(".ORG 0x10100", ""), ("CALL {L}", "back")], [("SECTION bss", ""), ("defs 3", "")], [("JP {L}", "fwd"), (".ORG 0x10100", ""), ("NOP", "")],
                [("MV A, [{L}]", "fwd"), ("defm \"AB\"", "")], [(".ORG {L}", "fwd"), ("NOP", "")]]
@@ -312,8 +332,24 @@ def run(ctx) -> None:
                         "bss labels are only constrained relative to each other (the statement does not say where bss starts)"]
 
 
-def replay(ctx, w) -> Optional[str]:
+def replay(ctx, w, sig=None) -> Optional[str]:
     vb = VB()
+    if "program" in w:
+        if "shard" in w and sig:
+            # first in the history it was seen in (process-wide assembler caches): re-run its shard in this fresh process
+            sh = w["shard"]
+            progs = all_programs(sh["thorough"], sh["seed"])
+            parts = chunks(progs, sh["nshards"])
+            part = parts[sh["sid"]] if sh["sid"] < len(parts) else []
+            r = _shard((part, sh["sid"], {k: sh[k] for k in ("thorough", "seed", "nshards")}))
+            ent = r["vb"].d.get(sig)
+            if ent:
+                return ent[1][0][0]
+        lines = [l for l in w["program"].splitlines() if l.strip()]
+        judge_text(w["program"], [l.split(":", 1)[1].strip() for l in lines], vb)
+        for s_, (cnt, wl) in vb.d.items():
+            return wl[0][0]
+        return None
     if "program" in w:
         lines = [l for l in w["program"].splitlines() if l.strip()]
         judge_text(w["program"], [l.split(":", 1)[1].strip() for l in lines], vb)
